@@ -261,6 +261,9 @@ Proof.
   fold s. rewrite !andb_true_iff. repeat split.
   - apply N.eqb_eq. rewrite popcount_bitfield.
     rewrite Hpi. reflexivity.
+  - apply forall_idx_iff. intros i Hi. rewrite nth_status_bytes.
+    pose proof (idle_no_dirty c ws S i I Q Hi) as Hnd. fold s in Hnd.
+    destruct (st_at s i); try reflexivity. congruence.
   - rewrite map_length, seq_length. apply Nat.eqb_eq. exact Lst.
   - apply forall_idx_iff. intros i Hi. rewrite Lst, nth_map_seq by auto. rewrite nth_bit_bitfield.
     unfold get_piece. rewrite Lst. apply Nat.ltb_lt in Hi as Hi'. rewrite Hi'. simpl.
@@ -308,7 +311,8 @@ Proof.
       * fin_simpl.
       * destruct HT as (i & Hv). destruct (Hvalid i Hv) as (V1 & V2 & V3). rewrite V2, V1, V3. fin_simpl.
       * destruct HT as (i & Hv). destruct (Hvalid i Hv) as (V1 & V2 & V3). rewrite V2, V1, V3. fin_simpl.
-      * destruct HT as (i & Hv & _). destruct (Hvalid i Hv) as (V1 & V2 & V3). rewrite V2, V1, V3. fin_simpl.
+      * destruct HT as (i & Hv & Hne). destruct (Hvalid i Hv) as (V1 & V2 & V3). rewrite V2, V1, V3.
+        apply N.eqb_neq in Hne. rewrite Hne. fin_simpl.
       * contradiction.
 Qed.
 
